@@ -272,7 +272,10 @@ def run_actions():
     for acc in lists():
         for e in elems:
             for name, fn, nodes in (("collect_first", A.collect_first, [acc, e]),
-                                    ("collect_first_sep", A.collect_first_sep, [acc, ",", e])):
+                                    ("collect_first_sep", A.collect_first_sep, [acc, ",", e]),
+                                    # (a separator rule may evaluate to None or to something falsy)
+                                    ("collect_first_sep", A.collect_first_sep, [acc, None, e]),
+                                    ("collect_first_sep", A.collect_first_sep, [acc, 0, e])):
                 before = copy.deepcopy(nodes)
                 acc_id = id(nodes[0])
                 out["evaluations"] += 1
@@ -287,7 +290,8 @@ def run_actions():
                 if e is not None and id(r) == acc_id:
                     _viol(out, f"actions.{name}", key, "the accumulated list was extended in place")
             for name, fn, nodes in (("collect_right_first", A.collect_right_first, [e, acc]),
-                                    ("collect_right_first_sep", A.collect_right_first_sep, [e, ",", acc])):
+                                    ("collect_right_first_sep", A.collect_right_first_sep, [e, ",", acc]),
+                                    ("collect_right_first_sep", A.collect_right_first_sep, [e, None, acc])):
                 before = copy.deepcopy(nodes)
                 tail_id = id(nodes[-1])
                 out["evaluations"] += 1
